@@ -263,9 +263,7 @@ class Case final : public sim::CaseBase {
               consume_range.push_back(std::move(owned[i]));
             }
           }
-          if (!consume_range.empty()) {
-            group.Consume(consume_range.begin(), consume_range.end());
-          }
+          group.Consume(consume_range.begin(), consume_range.end());  // possibly an empty range
           // Attach takes a range of futures too: build a contiguous range of the attached ones and move them back
           std::vector<yaclib::Future<T, E>> attach_range;
           for (std::size_t i = 0; i < nf; ++i) {
@@ -274,8 +272,8 @@ class Case final : public sim::CaseBase {
               attach_idx.push_back(i);
             }
           }
-          if (!attach_range.empty()) {
-            group.Attach(attach_range.begin(), attach_range.size());
+          {
+            group.Attach(attach_range.begin(), attach_range.size());  // possibly an empty range
             for (std::size_t k = 0; k < attach_idx.size(); ++k) {
               owned[attach_idx[k]] = std::move(attach_range[k]);
             }
